@@ -190,7 +190,11 @@ pub fn eval(expr: Node) -> Result<f64, Box<dyn error::Error>> {
         Ln(sub_expr) => Ok(eval(*sub_expr)?.ln()),
         Lb(sub_expr) => Ok(eval(*sub_expr)?.log(2.0)),
         Truncate(sub_expr) => Ok(eval(*sub_expr)?.trunc()),
-        Sign(sub_expr) => Ok(eval(*sub_expr)?.signum()),
+        Sign(sub_expr) => {
+            let x = eval(*sub_expr)?;
+            // f64::signum maps both zeros to +-1: the sign of zero is zero
+            Ok(if x == 0.0 { x } else { x.signum() })
+        }
         Exp(sub_expr) => Ok(eval(*sub_expr)?.exp()),
         Exp2(sub_expr) => Ok(eval(*sub_expr)?.exp2()),
         Log(expr1, expr2) => Ok(eval(*expr1)?.log(eval(*expr2)?)),
